@@ -12,8 +12,15 @@ Line-protocol driver for the legacy-listener model (property C16).
   final  :=  'v' | 'x'                     (value / aux)
   op     :=  sc o f | sk o n | ap o | in o i | dl o i | si o i | sl o i j n | cl o
            | sb o key* | ds o key | du o key* | di o key* | sd o key | dd o key | dp o key | dq o | dc o
+           | rv o | so o | ro o | kp o d n | kc o d n | kr o | bd o d
            | pv o | px o | rg | rm
-            (du = update, di = `|=`, sd = setdefault, dp = pop, dq = popitem, si = kids[i] = N())
+            (du = update, di = `|=`, sd = setdefault, dp = pop, dq = popitem, si = kids[i] = N();
+             carry-over operations: rv = kids.reverse(), so = kids.sort(key giving the reversed order),
+             ro = kids[:] = kids[1:] + kids[:1], kp = kids[:] = kids[d:] + n fresh,
+             kc = o.kids = o.kids[d:] + n fresh, kr = o.kids = list(reversed(o.kids)),
+             bd = o.byname = dict(reversed(list(o.byname.items())[d:]));
+             the reassigning ones (kc, kr, bd) are skipped with 'E': whether the trait fires would
+             depend on `==` of the items; `sc o 2` = fresh object with the replaced object's scalars)
 
 Output, one group per op, joined by " ; ":
   (ok|skip) L=<legacy calls> O=<observe spec calls> P=<lv>/<la>/<ov>/<oa> A=[..][..] H=<hooks>
@@ -39,6 +46,9 @@ def parseLink (s : String) : Option Link :=
     | _, _ => none
   | _ => none
 
+def parseEq (s : String) : Bool :=
+  ((words s).takeWhile (fun w => w = "E" || w = "I" || w = "D" || w = "K")).contains "E"
+
 def parseName (s : String) : Option Name :=
   let ws := words s
   let flags := ws.takeWhile (fun w => w = "E" || w = "I" || w = "D" || w = "K")
@@ -58,6 +68,7 @@ def parseName (s : String) : Option Name :=
 /-- Operations as written on the case line (list mutators still by method). -/
 inductive LOp where
   | op (o : Op)
+  | carry (o : Op)        -- a reassignment that carries objects over (not with 'E')
   | append (o : Nat)
   | insert (o i : Nat)
   | delIdx (o i : Nat)
@@ -97,13 +108,23 @@ def parseOp (s : String) : LOp :=
   | ["dc", o] => match nat? o with | some o => .op (.dictClear o) | _ => .bad
   | ["pv", o] => match nat? o with | some o => .op (.probe o .value) | _ => .bad
   | ["px", o] => match nat? o with | some o => .op (.probe o .aux) | _ => .bad
+  | ["rv", o] => match nat? o with | some o => .op (.rearrange o 0 1 0 true) | _ => .bad
+  | ["so", o] => match nat? o with | some o => .op (.rearrange o 0 1 0 true) | _ => .bad
+  | ["ro", o] => match nat? o with | some o => .op (.rearrange o 0 2 0 true) | _ => .bad
+  | ["kp", o, d, n] => match nat? o, nat? d, nat? n with
+    | some o, some d, some n => .op (.rearrange o d 0 n true) | _, _, _ => .bad
+  | ["kc", o, d, n] => match nat? o, nat? d, nat? n with
+    | some o, some d, some n => .carry (.rearrange o d 0 n false) | _, _, _ => .bad
+  | ["kr", o] => match nat? o with | some o => .carry (.rearrange o 0 1 0 false) | _ => .bad
+  | ["bd", o, d] => match nat? o, nat? d with | some o, some d => .carry (.dictCarry o d) | _, _ => .bad
   | ["rg"] => .op .reg
   | ["rm"] => .op .unreg
   | _ => .bad
 
 /-- `list.append / insert / __delitem__(int) / clear` as the slice assignment they are. -/
-def resolve (h : Heap) : LOp → Option Op
+def resolve (eq : Bool) (h : Heap) : LOp → Option Op
   | .op o => some o
+  | .carry o => if eq then none else some o
   | .append o => let n := (h.obj o).kids.length; some (.splice o n n 1)
   | .insert o i => some (.splice o i i 1)
   | .delIdx o i => if i < (h.obj o).kids.length then some (.splice o i (i + 1) 0) else none
@@ -157,28 +178,28 @@ def probeAll (N : Name) (f : Final) : List Nat → St → List Nat → List Nat 
     let (st', _, calls) := step N st (.probe o f)
     probeAll N f os st' (lg ++ calls.map (·.1)) (ob ++ spec.map (·.1))
 
-def runOps (N : Name) : St → List LOp → List String
+def runOps (eq : Bool) (N : Name) : St → List LOp → List String
   | _, [] => []
   | st, lop :: rest =>
-    match resolve st.h lop with
-    | none => "skip" :: runOps N st rest
+    match resolve eq st.h lop with
+    | none => "skip" :: runOps eq N st rest
     | some op =>
       let spec := specStep N st op
       let (st1, applied, calls) := step N st op
-      if !applied then "skip" :: runOps N st1 rest
+      if !applied then "skip" :: runOps eq N st1 rest
       else
         let objs := List.range st1.h.next
         let (st2, lv, ov) := probeAll N .value objs st1 [] []
         let (st3, la, oa) := probeAll N .aux objs st2 [] []
         let line := s!"ok L={showCalls calls} O={showCalls spec} " ++
           s!"P={showIds lv}/{showIds la}/{showIds ov}/{showIds oa} A={showActive N st3} H={showHooks st3}"
-        line :: runOps N st3 rest
+        line :: runOps eq N st3 rest
 
 def handle (line : String) : String :=
   match (clean line).splitOn "|" with
   | [name, ops] =>
     match parseName name with
-    | some N => " ; ".intercalate (runOps N St.init ((fields ops ";").map parseOp))
+    | some N => " ; ".intercalate (runOps (parseEq name) N St.init ((fields ops ";").map parseOp))
     | none => "bad-case"
   | _ => "bad-case"
 
